@@ -2,7 +2,10 @@
 
 proof : Properties/C14.v (int_token_value, float_token_python, number_token_unique,
         string_roundtrip, adjacent_concat)
-tie   : K-lex  extracted Lit.lex_number / jinja_int / convert / lex_string / parse_strings against
+tie   : T5    gen/lit_translate.py turns the current source of lexer.wrap's TOKEN_STRING / TOKEN_INTEGER /
+        TOKEN_FLOAT branches into terms of Lib/LitPy; build/C14/Gen_lit.v proves  interpreted branch = model
+        conversion  for every token text (and pins _normalize_newlines, newline_re, the tag rule order);
+        K-lex  extracted Lit.lex_number / jinja_int / convert / lex_string / parse_strings against
         the REAL lexer (Lexer.tokeniter raw tokens + Lexer.wrap conversion, compile_expression):
         every spelling up to length L over [0-9_.eExXoObB+-] (first number token: kind, length;
         value when the spelling is one token), the same after a dot (look-behind), big integers
@@ -30,7 +33,8 @@ RULE = ("numbers: every spelling of length 1..L over [0-9_.eExXoObB+-] (L=4 quic
         "strings: code-point lists of length 0..8 drawn from 12 classes (printable, quotes, backslash, C0 controls, "
         "CR, LF, DEL, Latin-1, BMP, surrogates, astral, boundaries, escape-significant letters and digits) written in "
         "4 styles x 2 quotes by the extracted encoder, plus repr()/ascii() spellings, escape soups (well- and "
-        "malformed), raw line breaks with newline_sequence in {LF, CRLF}, adjacent literals; non-trivial = body "
+        "malformed), raw line breaks with newline_sequence in {LF, CRLF}, adjacent literals, groups of 2-4 literals of "
+        "equal value and different type in one template (list / call arguments / set); non-trivial = body "
         "contains a backslash or a non-ASCII / control character.")
 
 
@@ -343,9 +347,63 @@ def check_strings(ctx, R):
 SOUP = list("\\\\\\\\'\"xuUN01789abfnrtvz{} \n\r") + ["é", "\U0001F600"]
 
 
+def python_value(lit, b, q):
+    """Python's value of the quoted text (triple-quoted when the body has raw line breaks), or None"""
+    try:
+        with warnings.catch_warnings():
+            warnings.simplefilter("ignore")
+            if "\n" not in b and "\r" not in b:
+                return ast.literal_eval(lit)
+            if q not in b and not b.endswith("\\"):
+                return ast.literal_eval(q * 3 + b + q * 3)
+    except Exception:  # noqa
+        return None
+    return None
+
+
+def literal_groups(ctx, R):
+    """several literals in ONE template: each must keep its own type and value (a compiled template
+    holds all its constants together)"""
+    rng = ctx.rng
+    pool = ["1", "1.0", "1e0", "0", "0.0", "0e0", "10", "1e1", "10.0", "1_0", "0x10", "16", "16.0", "0b11", "3", "3.0",
+            "9007199254740993", "9007199254740992.0", "2", "2.0", "'1'", "'1.0'", "'a'", '"a"', "'\\x61'", "true", "false",
+            "100", "1e2", "0o7", "7.0", "0.5", "5e-1", "255", "0xff", "2.55e2"]
+    n = ctx.size(1500, 15000)
+    for i in range(n):
+        items = [rng.choice(pool) for _ in range(rng.randint(2, 4))]
+        if i < len(pool) * len(pool):
+            items = [pool[i // len(pool)], pool[i % len(pool)]]
+        form = rng.choice(["list", "call", "set"])
+        try:
+            want = [ast.literal_eval({"true": "True", "false": "False"}.get(x, x)) for x in items]
+        except Exception:  # noqa
+            continue
+        case = {"literals": items, "form": form}
+        ctx.case(key=("group", form, tuple(items)))
+        ctx.count("group/" + form)
+        try:
+            if form == "list":
+                got = R.env.compile_expression("[" + ", ".join(items) + "]")()
+            elif form == "call":
+                got = R.env.compile_expression("grab(" + ", ".join(items) + ")")(grab=lambda *a: list(a))
+            else:
+                src = "".join("{%% set v%d = %s %%}" % (k, x) for k, x in enumerate(items))
+                src += "{{ grab(" + ", ".join("v%d" % k for k in range(len(items))) + ") }}"
+                box = []
+                R.env.from_string(src).render(grab=lambda *a: box.append(list(a)) or "")
+                got = box[0]
+        except Exception as e:  # noqa
+            got = "raised " + type(e).__name__
+        if not (isinstance(got, list) and [(type(a), a) for a in got] == [(type(a), a) for a in want]):
+            ctx.reject(case, f"literals {items} in one template ({form}) denote {got!r}, Python: {want!r}",
+                       "C14:group:" + form + ":" + ",".join(items))
+        else:
+            ctx.validated()
+
+
 def escape_soup(ctx, R):
     rng = ctx.rng
-    bodies = ["\\x4", "\\x4g", "\\u12", "\\U0011000", "\\U00110000", "\\U0010ffff", "\\777", "\\8", "\\0", "\\1a", "\\z",
+    bodies = ["a\nb", "a\rb", "a\r\nb", "\r", "\n\n", "a\r\rb", "x\n\ry", "\\n\n", "é\r\n😀", "\\x4", "\\x4g", "\\u12", "\\U0011000", "\\U00110000", "\\U0010ffff", "\\777", "\\8", "\\0", "\\1a", "\\z",
               "\\\n", "a\\\nb", "\\N{DASH}", "\\N", "\\", "\\\\", "\\xZZ", "\\u00e9", "\\ud800", "\\x41\\101\\u0041",
               "\r\n", "a\rb", "a\r\nb", "\n\r", "\\\r\n", "\\\r"]
     for _ in range(ctx.size(3000, 40000)):
@@ -366,7 +424,14 @@ def escape_soup(ctx, R):
             kind, rlen, val, whole = R.first_token("", lit + " ~ x", env)
             rl = str(rlen) if kind == "string" else "none"
             if rl != ml:
-                ctx.model_mismatch("K-lex string_re (model vs tokeniter)", case, ml, rl, None)
+                # a literal Python reads (one-line, or triple-quoted for raw line breaks) that the lexer does not
+                # read as one string token of the same text: the property fails on it
+                pyv0 = python_value(lit, b, q) if nlname == "LF" else None
+                why0 = None
+                if pyv0 is not None and "\\N" not in b and (rl == "none" or rlen != len(src_norm(lit))):
+                    why0 = f"Python reads {lit!r} as {pyv0!r}; the template lexer does not read it as one string literal"
+                    ctx.reject(case, why0, "C14:string:not-lexed:" + lit[:20])
+                ctx.model_mismatch("K-lex string_re (model vs tokeniter)", case, ml, rl, why0)
                 continue
             if rl == "none" or rlen != len(src_norm(lit)):
                 ctx.validated()          # the literal ends earlier / is no literal: lengths agree, nothing to convert
@@ -384,7 +449,15 @@ def escape_soup(ctx, R):
             try:
                 with warnings.catch_warnings():
                     warnings.simplefilter("ignore")
-                    pyv = ast.literal_eval(lit) if ("\n" not in b and "\r" not in b) else None
+                    if "\n" not in b and "\r" not in b:
+                        pyv = ast.literal_eval(lit)
+                    elif nlname == "LF" and q not in b and not b.endswith("\\"):
+                        # raw line breaks: with the default newline_sequence the literal must denote what
+                        # Python gives the same text in a triple-quoted literal (CR, CRLF -> LF)
+                        pyv = ast.literal_eval(q * 3 + b + q * 3)
+                        ctx.count("str/raw-break-vs-python")
+                    else:
+                        pyv = None
             except Exception:  # noqa
                 pyv = None
             if pyv is not None and real.startswith("ok ") and uncps(real[3:]) != pyv and "\\N" not in b:
@@ -435,6 +508,19 @@ def run(ctx):
         "\\N{name} escapes need the Unicode name table and are outside the model (skipped in the tie)",
     ]
     ctx.proof("C14")
+    # T5 tie: the current source of wrap's TOKEN_STRING / TOKEN_INTEGER / TOKEN_FLOAT branches, translated into
+    # Lib/LitPy terms, is proved equal to the model conversions for every token text
+    import os
+    sys.path.insert(0, os.path.join(lib.ROOT, "gen"))
+    import lit_translate
+    try:
+        ok, out = ctx.coq_obligation("Gen_lit", lit_translate.emit(lib.SRC), n_obligations=3)
+        if ok:
+            ctx.trusted.append("Gen_lit (source = model equations): " + " ".join(out.split()))
+    except lit_translate.Untranslatable as e:
+        ctx.obligations += 3
+        ctx.obligation_names.append("Gen_lit (regenerated, 3)")
+        ctx.broken.append(f"translator gen/lit_translate.py: lexer.wrap's literal branches left the translatable vocabulary: {e}")
     R = Real(jinja2)
     L = ctx.size(4, 5)
     sp = []
@@ -450,6 +536,7 @@ def run(ctx):
     check_strings(ctx, R)
     escape_soup(ctx, R)
     adjacent(ctx, R)
+    literal_groups(ctx, R)
 
 
 def replay(ctx, data):
@@ -485,6 +572,8 @@ def replay(ctx, data):
             print("python value:", repr(pyv))
             if pyv is not None and r != ("ok", pyv):
                 ctx.reject(case, f"{lit!r} gives {r!r}, Python {pyv!r}", data.get("signature"))
+    elif "literals" in case:
+        literal_groups(ctx, R)
     elif "source" in case:
         r = R.value(case["source"])
         want = "".join(s_of(v) for v in case["parts"])
